@@ -309,11 +309,20 @@ func (r *Run) Finish(explanation string) int {
 // obligations of the selected rules under this property's rule ids (rename: other rule id -> own
 // rule id). Used where one structural clause is a necessary condition of two properties.
 func (r *Run) ImportFrom(other func(*Run), rename map[string]string, doc map[string]string) {
+	r.ImportFromIf(other, rename, doc, nil)
+}
+
+// ImportFromIf is ImportFrom restricted to the obligations keep accepts (the part of the other
+// property's rule that is a necessary condition of this property too).
+func (r *Run) ImportFromIf(other func(*Run), rename map[string]string, doc map[string]string, keep func(*Obligation) bool) {
 	sub := &Run{Property: r.Property, Tier: r.Tier, Prog: r.Prog, Root: r.Root, start: r.start, extra: map[string]interface{}{}, dry: true}
 	other(sub)
 	for _, o := range sub.Obs {
 		nr, ok := rename[o.Rule]
 		if !ok {
+			continue
+		}
+		if keep != nil && !keep(o) {
 			continue
 		}
 		c := *o
